@@ -186,25 +186,29 @@ func TestVerifC17ClientMapRealTime(t *testing.T) {
 	for round := 0; round < vstat.Pick(3, 12); round++ {
 		m := NewClientMap(timeout)
 		a, b := taddr("x"), taddr("y")
+		// lastA / lastB are taken BEFORE the call that refreshes the entry (the map's own time stamp is
+		// taken later), and "now" AFTER the observation: the measured age is an upper bound of the real one
+		lastA := time.Now()
 		qa := m.SendQueue(a)
 		qa <- []byte("keep")
-		lastA := time.Now()
-		qb := m.SendQueue(b)
 		lastB := time.Now()
+		qb := m.SendQueue(b)
 		_ = qb
 		// keep a alive for ~3 timeouts by touching it every timeout/3; b is left idle
 		deadline := time.Now().Add(3 * timeout)
 		bClosedAt := time.Time{}
+		replaced := false
 		for time.Now().Before(deadline) {
 			before := time.Now()
 			q := m.SendQueue(a)
 			if q != qa {
-				if before.Sub(lastA) < timeout {
-					t.Fatalf("%s", u.Fail(round, "queue of a client seen %v ago (timeout %v) was replaced", before.Sub(lastA), timeout))
+				if age := time.Since(lastA); age < timeout {
+					t.Fatalf("%s", u.Fail(round, "queue of a client seen at most %v ago (timeout %v) was replaced", age, timeout))
 				}
 				qa = q // scheduling stall longer than the timeout: legitimately expired
+				replaced = true
 			}
-			lastA = time.Now()
+			lastA = before
 			if bClosedAt.IsZero() {
 				select {
 				case _, ok := <-qb:
@@ -219,7 +223,9 @@ func TestVerifC17ClientMapRealTime(t *testing.T) {
 			}
 			time.Sleep(timeout / 3)
 		}
-		if len(qa) != 1 {
+		if replaced {
+			u.Add("rounds with a scheduling stall longer than the timeout (contents not judged)", 1)
+		} else if len(qa) != 1 {
 			t.Fatalf("%s", u.Fail(round, "contents of a live queue were lost"))
 		}
 		if bClosedAt.IsZero() {
